@@ -167,6 +167,9 @@ type Sub struct {
 	Dels  []*Del
 	// TTL clock: expires when now > Activity + TTL
 	Activity  Iv
+	// Reconf: an UpdateSubscription changed a duration of this subscription (what
+	// goes wrong with it afterwards is also C17's "what is enforced")
+	Reconf bool
 	DeletedAt Iv
 	// Held: ack ids the client received and has not acked, in receive order
 	Held []string
@@ -544,6 +547,9 @@ func (m *Model) owners(h Hit, op Op) []string {
 	}
 	if h.Sub != "" && op.Sub != "" && h.Sub != op.Sub {
 		add("C02")
+	}
+	if s := m.Subs[h.Sub]; s != nil && s.Reconf {
+		add("C17")
 	}
 	// anything wrong on a subscriber of a dead-letter topic concerns forwarding
 	if s := m.Subs[h.Sub]; s != nil {
@@ -1437,7 +1443,7 @@ func (m *Model) checkRows(o Obs, call Iv) []Hit {
 		for n, s := range m.Subs {
 			c := o.LiveSubs[SubPath(n)]
 			if s.Live && c != 1 || !s.Live && c != 0 {
-				hits = append(hits, hit("live-sub-rows", []string{"C12", "C15", "C14"}, "subscription %s: model live=%v but %d live rows", n, s.Live, c))
+				hits = append(hits, hitOn(n, "live-sub-rows", []string{"C12", "C15", "C14"}, "subscription %s: model live=%v but %d live rows", n, s.Live, c))
 			}
 		}
 	}
@@ -1569,7 +1575,7 @@ func (m *Model) Digest(now time.Time, bucket time.Duration) string {
 	}
 	for _, n := range m.subNames() {
 		s := m.Subs[n]
-		fmt.Fprintf(&b, "%s live=%v gen=%d act=%s held=%d done=%d\n", n, s.Live, s.Gen, rd(s.Activity.Lo), len(s.Held), len(s.Done))
+		fmt.Fprintf(&b, "%s live=%v gen=%d act=%s..%s rc=%v held=%d done=%d\n", n, s.Live, s.Gen, rd(s.Activity.Lo), rd(s.Activity.Hi), s.Reconf, len(s.Held), len(s.Done))
 		for _, d := range s.Dels {
 			held := 0
 			for i, h := range s.Held {
@@ -1742,6 +1748,11 @@ var FilterPresets = map[string]*filt.Node{
 	"filter:x=1":  filt.E("x", "1"),
 }
 
+// TTLPresets / RetPresets: values a reconfig op sets (0 = the field is cleared
+// and the documented default applies)
+var TTLPresets = map[string]time.Duration{"ttl:2min": 2 * time.Minute, "ttl:1h": time.Hour, "ttl:default": 0}
+var RetPresets = map[string]time.Duration{"ret:40s": 40 * time.Second, "ret:10min": 10 * time.Minute, "ret:default": 0}
+
 func (m *Model) applyReconfig(c Call, o Obs) []Hit {
 	s := m.liveSub(c.Op.Sub)
 	if s == nil {
@@ -1760,6 +1771,24 @@ func (m *Model) applyReconfig(c Call, o Obs) []Hit {
 			panic("unknown preset " + c.Op.Tgt)
 		}
 		s.Cfg.Filter = f
+	case strings.HasPrefix(c.Op.Tgt, "ttl:"):
+		d, ok := TTLPresets[c.Op.Tgt]
+		if !ok {
+			panic("unknown preset " + c.Op.Tgt)
+		}
+		s.Cfg.TTL = d
+		// "expired only after a full TTL without pull activity": never before last
+		// activity + new TTL; an update may (and here does) restart the clock, so
+		// the end of the idle period lies between the two
+		s.Activity = Iv{s.Activity.Lo, o.Call().Hi}
+		s.Reconf = true
+	case strings.HasPrefix(c.Op.Tgt, "ret:"):
+		d, ok := RetPresets[c.Op.Tgt]
+		if !ok {
+			panic("unknown preset " + c.Op.Tgt)
+		}
+		s.Cfg.Retention = d
+		s.Reconf = true
 	case c.Op.Tgt == "retry:1s":
 		s.Cfg.MinBackoff, s.Cfg.MaxBackoff = time.Second, 0
 	case c.Op.Tgt == "retry:30s-max40s":
@@ -1769,6 +1798,7 @@ func (m *Model) applyReconfig(c Call, o Obs) []Hit {
 	default:
 		panic("unknown reconfig " + c.Op.Tgt)
 	}
+	s.Reconf = true
 	return nil
 }
 
